@@ -210,6 +210,17 @@ def run_case(case, rng):
             if d is case.FAIL:
                 continue
             av = {a: pol.action_value(bel, a) for a in A}
+            if nm == "pbvi":
+                # downstream use of the returned policy: its action values are the one-step look-ahead over ITS OWN value function
+                # (expected immediate reward of the whole belief + discounted value of the Bayes successors under the model's dynamics)
+                bv = np.array(b, dtype=float)
+                for ai_, a_ in enumerate(A):
+                    la = float(bv @ M.arr.ER[:, ai_])
+                    for v_, m_ in _succ_unmasked(M, sp, bv, ai_):
+                        la += gamma * m_ * float(pol.value((v_ / m_).tolist()))      # (a list: AlphaVectorPolicy raises TypeError for numpy-array beliefs, see DESIGN 8.7)
+                    case.count("lookahead_action_values_checked")
+                    case.check(abs(float(av[a_]) - la) <= 1e-9 * max(1.0, abs(la)), "pbvi:action_value!=one-step-lookahead-over-own-value",
+                               lambda: f"b={bv.tolist()} a={a_!r}: {av[a_]!r} vs {la!r}", **facts)
             mx = max(av.values())
             best = {a for a in A if av[a] == mx}
             got = {a: p for a, p in d.items() if p > 0}
